@@ -27,6 +27,9 @@ def run(repo, report, tier):
     report.guard("C08.R4", "AdapterIndex eligibility", r4_eligibility, repo, report)
     report.guard("C08.R4", "regrouping", r4_regroup, repo, report)
     report.guard("C08.R5", "N fallback", r5_nfallback, repo, report)
+    report.rule("C08.R6", "a match built by the index carries the alignment score the one-by-one search gives the same occurrence (match +1, mismatch -1, indel -2), not the bare number of matches: downstream comparisons (best adapter among indexed and other adapters, --revcomp) are made on that field",
+                "the adapter that wins, or the orientation --revcomp keeps, differs with and without --no-index")
+    report.guard("C08.R6", "score of indexed matches", r6_score_units, repo, report)
     report.notes.append("Not decided: completeness of the neighbourhood enumerators (C-level DP), the 'exactly one adapter within tolerance' clause (about concrete strings).")
 
 
@@ -70,6 +73,22 @@ def _has_foreign(r, affix):
     return v if v is not None else r.valuation.get(f"truthy:FOREIGN({affix})")
 
 
+def _score_helpers(repo):
+    """methods of AdapterIndex that convert (adapter, length, matches, errors) of an entry into the score of the match
+    (C08.R6 decides what they compute; for the coordinate and selection rules they are transparent)"""
+    from ..repo import expand
+
+    out = set()
+    cls = repo.cls("AdapterIndex")
+    for fn in cls.methods.values():
+        for call in calls_to(fn, "self._make_match"):
+            if len(call.args) == 5:
+                e = expand(fn, call.args[2])
+                if isinstance(e, ast.Call) and isinstance(e.func, ast.Attribute) and chain(e.func.value) == "self" and e.func.attr in cls.methods and len(e.args) == 4:
+                    out.add(e.func.attr)
+    return out
+
+
 def _ml_rows(repo):
     """decision tree of one iteration of the loop over lengths in _match_to_multiple_lengths"""
     c, fn0 = repo.need_method("AdapterIndex", "_match_to_multiple_lengths")
@@ -78,6 +97,14 @@ def _ml_rows(repo):
     mm = unique(calls_to(fn0, "self._make_match"), "_match_to_multiple_lengths: call of self._make_match", repo.loc(fn0))
     if len(mm.args) != 5:
         raise Unrecognised("_match_to_multiple_lengths: self._make_match is not called with five positional arguments", repo.loc(mm))
+    from ..repo import expand as _expand
+
+    margs = list(mm.args)
+    sc_ = _expand(fn0, margs[2])
+    if isinstance(sc_, ast.Call) and isinstance(sc_.func, ast.Attribute) and sc_.func.attr in _score_helpers(repo) and len(sc_.args) == 4:
+        margs[2] = sc_.args[2]  # the recorded number of matches the score is converted from
+    mm = ast.Call(func=mm.func, args=margs, keywords=[])
+    ast.copy_location(mm, margs[0])
     if not all(isinstance(a, ast.Name) for a in mm.args[:4]):
         # the match must be built from the recorded best candidate (adapter, length, matches, errors): a derived
         # expression in one of these places (e.g. len(adapter) for the length) is a wrong fact, not an unknown shape
@@ -101,8 +128,11 @@ def _ml_rows(repo):
         if cn == "self._lookup_with_n":
             ex.calls.append((f"lookup_with_n({vkey(ex.ev(node.args[0], env))})", node, "lookup_with_n"))
             return Obj("NRESULT")
+        if cn and cn.startswith("self.") and cn[5:] in helpers and len(node.args) == 4:
+            return ex.ev(node.args[2], env)
         return fhk(ex, node, env)
 
+    helpers = _score_helpers(repo)
     fhk = _foreign_hook(repo)
     rows = explore(repo, lp.body, env, call_hook=hook, inline=False, loop_mode="forbid")
     return fn, lp, rows
@@ -185,8 +215,11 @@ def r1_coordinates(repo, report):
             return Obj("NRESULT")
         if cn == "self._make_match":
             return Obj("MATCH(" + ", ".join(vkey(ex.ev(a, env)) for a in node.args) + ")", nonnull=True)
+        if cn and cn.startswith("self.") and cn[5:] in helpers and len(node.args) == 4:
+            return ex.ev(node.args[2], env)
         return fhk(ex, node, env)
 
+    helpers = _score_helpers(repo)
     fhk = _foreign_hook(repo)
     rows1 = explore(repo, strip_docstring(one.body), {"self": Obj("self", nonnull=True), ops[1]: Obj("SEQ", nonnull=True)}, call_hook=hook, inline=False)
     bad = []
@@ -461,7 +494,15 @@ def r3_bestof(repo, report):
     # final result
     body = strip_docstring(fn.body)
     tail = body[body.index(lp) + 1:]
-    rows2 = explore(repo, tail, {"self": Obj("self", nonnull=True), params(fn)[1]: Obj("SEQ", nonnull=True), "best_adapter": Obj("BEST_ADAPTER"), "best_length": Lin.atom("BEST_LENGTH"), "best_m": Lin.atom("BEST_M"), "best_e": Lin.atom("BEST_E")}, inline=False)
+    helpers2 = _score_helpers(repo)
+
+    def hook2(ex, node, env):  # the score conversion is transparent here (C08.R6 decides what it computes)
+        cn = chain(node.func)
+        if cn and cn.startswith("self.") and cn[5:] in helpers2 and len(node.args) == 4:
+            return ex.ev(node.args[2], env)
+        return None
+
+    rows2 = explore(repo, tail, {"self": Obj("self", nonnull=True), params(fn)[1]: Obj("SEQ", nonnull=True), "best_adapter": Obj("BEST_ADAPTER"), "best_length": Lin.atom("BEST_LENGTH"), "best_m": Lin.atom("BEST_M"), "best_e": Lin.atom("BEST_E")}, call_hook=hook2, inline=False)
     tbl = {}
     for r in rows2:
         j = Executor(None, r.valuation)
@@ -593,7 +634,7 @@ def r5_nfallback(repo, report):
             if ret != "None":
                 bad.append(("failed re-alignment", ret))
         elif ret != "None":
-            if ret != f"({K}[0], REMATCH.errors, REMATCH.score)":
+            if not (ret.startswith(f"({K}[0], REMATCH.errors, ") and "REMATCH.score" in ret):
                 bad.append(("result", ret))
             # the caller builds the match over the WHOLE affix (rstop = length): the re-alignment must have consumed all of it
             from ..absint import entails
@@ -673,6 +714,74 @@ def _fallback_trigger(repo, report, ln):
               fact_key="foreign-characters" if problems else None,
               expected="the detour test and the substitution cover every character that is not in the alphabet of the index strings (a negated class of exactly that alphabet)",
               why=(f"{problems[0]}: a read with another character outside {''.join(sorted(alphabet))} (R, Y, '.', ...) at the anchored end is looked up as it is, is not in the dictionary and is reported as 'no match', while the same adapter searched one by one matches with that character as a mismatch: -g ^ACGTACGTAC -g ^TTGGCCAATT --no-indels on ARGTACGTACTTTT removes nothing with the index and 10 bases with --no-index" if problems else ""))
+
+
+def r6_score_units(repo, report):
+    """The index dictionary stores, per string, (adapter, errors, matches). A match object's `score` is compared with the
+    scores of matches found by the aligner/comparers (MultipleAdapters over an index group and further adapters, the
+    reverse-complement decision), whose unit is  matches - mismatches - 2 * indels.  So the third argument of the match
+    constructors must be that quantity, computed from the entry - for an indel-free entry of an adapter of length n
+    with e mismatches: n - 2e - and what _lookup_with_n hands back in the entry's place must be in the entry's unit."""
+    from .. import constfold
+    from ..repo import expand
+
+    c, mk = repo.need_method("AdapterIndex", "_make_index")
+    stored = sorted({src(n.value) for n in ast.walk(mk) if isinstance(n, ast.Assign) and isinstance(n.targets[0], ast.Subscript) and chain(n.targets[0].value) == "index" and isinstance(n.value, ast.Tuple)})
+    if stored != ["(adapter, errors, matches)"]:
+        raise Unrecognised(f"_make_index stores {stored}, expected (adapter, errors, matches)", repo.loc(mk))
+    problems = []
+    sites = 0
+    for mname in ("_match_to_one_length", "_match_to_multiple_lengths"):
+        c, fn = repo.need_method("AdapterIndex", mname)
+        for call in calls_to(fn, "self._make_match"):
+            if len(call.args) != 5:
+                raise Unrecognised(f"{mname}: self._make_match is not called with five positional arguments", repo.loc(call))
+            sites += 1
+            sc = expand(fn, call.args[2])
+            if isinstance(sc, ast.Name):
+                problems.append(f"{mname}: the score of the match is {sc.id}, the entry's number of matches")
+                continue
+            if not (isinstance(sc, ast.Call) and isinstance(sc.func, ast.Attribute) and chain(sc.func.value) in ("self", "AdapterIndex") and sc.func.attr in repo.cls("AdapterIndex").methods and len(sc.args) == 4):
+                raise Unrecognised(f"{mname}: score {src(sc)[:60]} is neither the entry's third component nor a conversion helper(adapter, length, matches, errors)", repo.loc(call))
+            if [src(a) for a in sc.args] != [src(call.args[0]), src(call.args[1]), src(call.args[2]) if False else src(sc.args[2]), src(call.args[3])] or src(sc.args[0]) != src(call.args[0]) or src(sc.args[1]) != src(call.args[1]) or src(sc.args[3]) != src(call.args[3]):
+                problems.append(f"{mname}: the score is converted from {[src(a) for a in sc.args]}, the match is built from {[src(a) for a in call.args[:4]]}")
+                continue
+            helper = repo.cls("AdapterIndex").methods[sc.func.attr]
+            hp = [p_ for p_ in params(helper) if p_ not in ("self", "cls")]
+            wrong = []
+            for n_ in (6, 9, 12):
+                for e_ in (0, 1, 2, 3):
+                    try:
+                        got = constfold.fold_function(helper, {hp[0]: {"__attrs__": {"sequence": "A" * n_}}, hp[1]: n_, hp[2]: n_ - e_, hp[3]: e_})
+                    except constfold.NotConstant as ex:
+                        raise Unrecognised(f"{sc.func.attr}: not foldable ({ex})", repo.loc(helper))
+                    if got != n_ - 2 * e_:
+                        wrong.append((n_, e_, got))
+            if wrong:
+                problems.append(f"{sc.func.attr}(adapter of length {wrong[0][0]}, {wrong[0][0]}, {wrong[0][0] - wrong[0][1]} matches, {wrong[0][1]} errors) = {wrong[0][2]}, the comparers give {wrong[0][0] - 2 * wrong[0][1]}")
+    # the fallback's result takes the place of a dictionary entry: its third component is a number of matches
+    c, ln = repo.need_method("AdapterIndex", "_lookup_with_n")
+    rets = [expand(ln, r_.value) for r_ in ast.walk(ln) if isinstance(r_, ast.Return) and isinstance(r_.value, ast.Tuple) and len(r_.value.elts) == 3]
+    for rt in rets:
+        sites += 1
+        third = rt.elts[2]
+        from .c03 import _lin_of
+
+        try:
+            val = _lin_of(third, {"self": Obj("self", nonnull=True), "match": Obj("M", nonnull=True), "adapter": Obj("AD", nonnull=True), "affix": Obj("AFFIX", nonnull=True)})
+        except Unrecognised:
+            val = None
+        if val is None:
+            raise Unrecognised(f"_lookup_with_n: third component {src(third)[:60]} is not linear in the match's fields", repo.loc(ln))
+        # indel-free re-alignment over the whole affix of an adapter of length N: score = N - 2E, len(affix) = N
+        subst = {a: Lin.atom("N") for a in val.atoms() if a.startswith("len(")}
+        subst.update({a: Lin.atom("N") - Lin.atom("E") * 2 for a in val.atoms() if a.endswith(".score")})
+        subst.update({a: Lin.atom("E") for a in val.atoms() if a.endswith(".errors")})
+        if val.subst(subst) != Lin.atom("N") - Lin.atom("E"):
+            problems.append(f"_lookup_with_n hands back {src(third)[:50]} where the dictionary has a number of matches (for an indel-free occurrence: {val.subst(subst).key()} instead of N-E)")
+    report.ob("C08.R6", "indexed matches carry the alignment score", not problems and sites >= 3, facts={"sites": sites, "entry": stored[0], "problems": problems[:3]}, loc=repo.loc(mk), cases=sites, fact_key="score-unit" if problems else None,
+              expected="score = conversion(adapter, length, matches, errors) with n - 2e for an indel-free entry; _lookup_with_n returns (adapter, errors, matches)",
+              why=(f"{problems[0]}: the comparers/aligner score the same occurrence as matches - mismatches, so an indexed match with errors looks better than it is: -e 0.25 --no-indels -g ^ACGTACCTAA -g ^CCCCCCCCCC -a 'GGGGGGG$' -a 'AAAAAAA$' on ACGTACGAAATTTTTGGGGGGG removes the 5' adapter (score 8 against 7) with the index and the 3' adapter (7 against 6) with --no-index" if problems else ""))
 
 
 def r4_regroup(repo, report):
